@@ -145,6 +145,28 @@ def run_table(ctx, pdb2sql, rep, case, record=True):
         lines = ['OK', db.sql2pdb()]
     except Exception as e:
         lines = ['ERR', exc_class(e)]
+    # exportpdb: the file is the lines, each newline-terminated; append=True appends another export to it
+    file_issue = None
+    if lines[0] == 'OK':
+        fn = os.path.join(ctx.scratch, 'c02_export.pdb')
+        try:
+            chains = sorted({a['chainID'] for a in atoms})
+            db.exportpdb(fn)
+            first = open(fn).read()
+            db.exportpdb(fn, append=True, chainID=chains[0])
+            both = open(fn).read()
+            sel = db.sql2pdb(chainID=chains[0])
+            want1 = ''.join(l + '\n' for l in lines[1])
+            want2 = want1 + ''.join(l + '\n' for l in sel)
+            if first != want1:
+                file_issue = dict(why='exportpdb file differs from the exported lines, each newline-terminated', got=first[-170:], want=want1[-170:])
+            elif both != want2:
+                file_issue = dict(why='exportpdb(append=True) did not append the second export after the first', got=both[len(want1) - 90:len(want1) + 90])
+        except Exception as e:
+            file_issue = dict(why='exportpdb raised ' + exc_class(e))
+        finally:
+            if os.path.exists(fn):
+                os.remove(fn)
     db._close()
     reqs = []
     for r in rows:
@@ -205,6 +227,8 @@ def run_table(ctx, pdb2sql, rep, case, record=True):
                             break
             except Exception as e:
                 bad = ('impl_vs_spec', dict(why='reading the exported text back raised ' + exc_class(e), lines=L[:3]))
+    if bad is None and file_issue is not None:
+        bad = ('impl_vs_spec', file_issue)
     if bad:
         rep.mismatch(bad[0], case, **bad[1])
 
